@@ -5,10 +5,13 @@ package main
 
 import (
 	"bufio"
+	"bytes"
 	"encoding/json"
 	"fmt"
 	"os"
+	"os/exec"
 	"sort"
+	"syscall"
 
 	"vharness/vrt"
 )
@@ -58,10 +61,37 @@ func main() {
 			enc.Encode(result{ID: j.ID, Outcome: "unknown-harness"})
 			continue
 		}
+		job := j
+		vrt.Spawn = func(env []string, wrapper []string) (bool, error) {
+			// re-run this job as a crash child
+			jb, _ := json.Marshal(job)
+			argv := append(append([]string{}, wrapper...), os.Args[0])
+			cmd := exec.Command(argv[0], argv[1:]...)
+			cmd.Env = append(os.Environ(), env...)
+			cmd.Stdin = bytes.NewReader(jb)
+			cmd.Stderr = os.Stderr
+			err := cmd.Run()
+			if ee, ok := err.(*exec.ExitError); ok {
+				if ws, ok := ee.Sys().(syscall.WaitStatus); ok {
+					if ws.Signaled() {
+						return true, nil
+					}
+					// under strace the tracer exits with 128+signal
+					if ws.ExitStatus() >= 128 {
+						return true, nil
+					}
+					return false, fmt.Errorf("child exit status %d", ws.ExitStatus())
+				}
+			}
+			return false, err
+		}
 		c := vrt.Run(h, j.Params, j.Draws)
 		r := result{ID: j.ID, Outcome: "ok", Obs: c.Obs, Covers: c.Covers, Classes: c.Classes}
 		if c.Fail != nil {
 			r.Outcome, r.FailID, r.Msg = c.Fail.Kind, c.Fail.ID, c.Fail.Msg
+		}
+		if c.Skipped != "" {
+			r.Outcome, r.Msg = "skip", c.Skipped
 		}
 		enc.Encode(r)
 		out.Flush()
